@@ -8,7 +8,7 @@ ID = "C14"
 GEN = ["TlSchemaTable.v", "CrcTables.v"]
 RULE = ("for EVERY constructor of the bundled lite-server, node and ADNL schemas a type-directed value generator: all "
         "flag-bit combinations for up to 4 conditional fields (sampled above), nested and polymorphic objects, vectors of "
-        "length 0,1,2,many, byte/text strings of length 0,1,2,3,252,253,254,255,256 and 70000; block-id helpers; "
+        "length 0,1,2,many, byte/text strings of length 0,1,2,3,252,253,254,255,256 and (2% of the fields) 257, 65535, 65536, 65537, 66049, 70000; block-id helpers; "
         "non-trivial = constructor with at least one field; distinct by constructor and value text")
 TRUSTED = [
     "Coq 8.16.1 kernel incl. vm_compute (constructor-id sweep over ~820 schema lines with a bitwise CRC-32); no native_compute",
@@ -93,6 +93,7 @@ def ctor_supported(t, seen=None):
 
 
 STR_LENS = [0, 1, 2, 3, 4, 5, 252, 253, 254, 255, 256]
+LONG_LENS = [257, 65535, 65536, 65537, 70000, 66049]      # the 3-byte length field beyond its first and second byte
 
 
 def gen_value(rng, t, depth=0):
@@ -128,13 +129,13 @@ def gen_field(rng, ty, depth):
         bits = 8 * ty[1]
         return ["i", rng.choice([0, 1, -1, (1 << (bits - 1)) - 1, -(1 << (bits - 1)), rng.getrandbits(bits - 1) * rng.choice([1, -1])])]
     if k == "bytes":
-        ln = rng.choice(STR_LENS + ([70000] if rng.random() < 0.01 else []))
+        ln = rng.choice(LONG_LENS) if rng.random() < 0.02 else rng.choice(STR_LENS)
         b = rng.randbytes(ln)
         if ln >= 4:
             b = b"\xff\xff\xff\xff" + b[4:]          # never a known constructor id
         return ["b", b.hex()]
     if k == "string":
-        ln = rng.choice(STR_LENS)
+        ln = rng.choice(LONG_LENS) if rng.random() < 0.02 else rng.choice(STR_LENS)
         return ["s", "".join(rng.choice("abcXYZ019 _") for _ in range(ln)).encode().hex()]
     if k == "bare":
         if depth > 4:
